@@ -19,7 +19,7 @@ func init() {
 		Doc:  "name lower-casing dataflow; defaults-before-call option order; nil option / nil value guards; tag writer/reader agreement; signature rejections; struct walk",
 		Run:  runOpts,
 		Floor: map[string]int{
-			"LOWER": 4, "OPTORDER": 3, "NILOPT": 2, "REFLVALID": 5, "TAGS": 4, "REJECT": 5, "STRUCTWALK": 6,
+			"LOWER": 4, "OPTORDER": 3, "NILOPT": 2, "REFLVALID": 3, "TAGS": 4, "REJECT": 5, "STRUCTWALK": 6,
 		},
 	})
 }
